@@ -2,7 +2,7 @@
    the fragment in which every variable is first assigned at top level of the setup part (so it
    is a C global) or at top level of the `while True:` body before any read of it in that body
    (so it is a local of loop(), assigned on every pass before it is used), keeps one type, loop bounds do not depend on what the body assigns, loop variables are
-   fresh, read only inside their loop and never assigned, and there is no tuple assignment.
+   fresh, read only inside their loop and never assigned.
    Each clause is forced by a counterexample (see the _refuted theorems and DESIGN.md C01). *)
 From Coq Require Import ZArith List Bool.
 From RV Require Import Base.Wire Base.Text Lang.StmtAst Lang.Transl.
@@ -29,6 +29,17 @@ Fixpoint assigned (p : pstmt) : list ident :=
 Definition assigned_in (l : list pstmt) : list ident := flat_map assigned l.
 
 Definition disjoint (a b : list ident) : bool := forallb (fun x => negb (tmem x b)) a.
+
+Fixpoint nodupb (l : list ident) : bool :=
+  match l with [] => true | x :: r => negb (tmem x r) && nodupb r end.
+
+(* `x1, ..., xn = e1, ..., en` declaring n NEW names at top level of the setup part: the parser
+   emits plain global declarations (no temporaries) *)
+Definition tuple_decl_ok (D : tenv) (L : list ident) (xs : list ident) (es : list ann) : bool :=
+  Nat.eqb (length xs) (length es)
+  && forallb (fv_ok D L) es
+  && forallb (fun x => negb (tmem x (map fst D)) && negb (tmem x L)) xs
+  && nodupb xs.
 
 (* One fuelled fixpoint on statement lists, in the style of Transl.tr_block (one unit of fuel
    per statement, nested or in sequence; [Transl.bsize] is enough).  [top] = the statements
@@ -60,7 +71,7 @@ Fixpoint g_block (fuel : nat) (top : bool) (D : tenv) (L : list ident) (ps : lis
                 | Some t => if ty_eqb t t_after then Some D else None
                 | None => None
                 end
-       | PTuple _ _ => None
+       | PTuple xs es => if top && tuple_decl_ok D L xs es then Some (D ++ combine xs (map a_ty es)) else None
        | PBreak => Some D
        | PWrite e | PSleep e | PExprS e => if fv_ok D L e then Some D else None
        | PIf c body elifs els =>
@@ -107,6 +118,9 @@ Definition ann_eqb (a b : ann) : bool :=
 Definition ids_consistent (p : pprog) : bool :=
   forallb (fun a => match info_of p (a_id a) with Some b => ann_eqb a b | None => false end) (prog_anns p).
 
+Definition no_top_tuple (ps : list pstmt) : bool :=
+  forallb (fun p => match p with PTuple _ _ => false | _ => true end) ps.
+
 Definition guard_ok (p : pprog) : bool :=
   ids_consistent p &&
   match g_block (bsize (p_pre p)) true [] [] (p_pre p) with
@@ -114,6 +128,7 @@ Definition guard_ok (p : pprog) : bool :=
   | Some D =>
       match p_main p with
       | None => true
-      | Some body => match g_block (bsize body) true D [] body with Some _ => true | None => false end
+      | Some body => no_top_tuple body &&
+                     match g_block (bsize body) true D [] body with Some _ => true | None => false end
       end
   end.
